@@ -327,3 +327,79 @@ func ruleXXHLazyInit(c *Check, p *Program, rule string) {
 		c.OK(rule, "XXHZero.Write#lazy-init-on-zero-length", p.Pos(wr.Pos()), "no call of Reset in Write", "the lanes are seeded elsewhere (R13.3 checks the seeds)", false)
 	}
 }
+
+// ---------------------------------------------------------------------------
+// R13.17 (= R19.12): the hash code widens input only by zero extension.
+//
+// XXH32 is defined over unsigned bytes and little-endian unsigned words. A
+// value of an unsigned type that is reinterpreted as the signed type of the
+// same width and then widened (uint32(int8(b)), uint32(int16(w))) is sign-
+// extended: every input byte >= 0x80 at that position then contributes
+// 0xFFFFFFxx instead of 0x000000xx and the digest differs from the reference
+// for exactly those inputs (printable test vectors never show it). The rule is
+// exact about the construct: a conversion whose operand has a signed integer
+// type narrower than the result, the operand itself being (a chain of
+// conversions of) a value of the unsigned type of the same width.
+
+func ruleXXHZeroExtends(c *Check, p *Program, rule string) {
+	size := func(t types.Type) (int, bool, bool) { // bits, signed, is integer
+		b, ok := t.Underlying().(*types.Basic)
+		if !ok || b.Info()&types.IsInteger == 0 {
+			return 0, false, false
+		}
+		w := 64
+		switch b.Kind() {
+		case types.Int8, types.Uint8:
+			w = 8
+		case types.Int16, types.Uint16:
+			w = 16
+		case types.Int32, types.Uint32:
+			w = 32
+		}
+		return w, b.Info()&types.IsUnsigned == 0, true
+	}
+	nFn, nConv := 0, 0
+	for _, fn := range p.SrcFuncs() {
+		if fn.Pkg == nil || fn.Pkg.Pkg.Path() != pkgXXH {
+			continue
+		}
+		nFn++
+		c.Funcs[fname(fn)] = true
+		allInstrs(fn, func(in ssa.Instruction) {
+			cv, ok := in.(*ssa.Convert)
+			if !ok {
+				return
+			}
+			nConv++
+			dw, _, dInt := size(cv.Type())
+			sw, sSigned, sInt := size(cv.X.Type())
+			if !dInt || !sInt || !sSigned || sw >= dw {
+				return
+			}
+			// a sign extension: where does the signed operand come from?
+			v := cv.X
+			for {
+				inner, isC := v.(*ssa.Convert)
+				if !isC {
+					break
+				}
+				iw, iSigned, iInt := size(inner.X.Type())
+				if iInt && !iSigned && iw == sw {
+					c.Sites++
+					c.Fail(rule, shortFn(fn)+"#input-widened-by-zero-extension", p.InstrPos(cv),
+						"the hash code widens bytes and words of its input by zero extension only",
+						fmt.Sprintf("a %d-bit unsigned value is reinterpreted as signed and then widened to %d bits: input bytes >= 0x80 at this position are sign-extended and the digest differs from reference XXH32 for every input that has one there", sw, dw))
+					return
+				}
+				if !iInt || iw != sw {
+					break
+				}
+				v = inner.X
+			}
+		})
+	}
+	c.Cond(nFn >= 4 && nConv >= 3, rule, "xxh32#conversions-resolved", "internal/xxh32",
+		"every integer conversion of package xxh32 was classified (zero extension, truncation, same width, or sign extension of an originally unsigned value)",
+		fmt.Sprintf("%d functions, %d conversions, no sign extension of an unsigned input value", nFn, nConv),
+		fmt.Sprintf("only %d functions / %d conversions found in package xxh32 (anchor unresolved)", nFn, nConv))
+}
